@@ -358,6 +358,24 @@ pub fn run(ctx: &mut Ctx) {
         }
     }
 
+    // signing / encrypting long messages with a regular key must terminate within the RNG step limit as well
+    for len in [0usize, 1, 255, 256, 4096, 16384, 100_000] {
+        idx += 1;
+        if !ctx.mine(idx) {
+            continue;
+        }
+        let m = p.bytes(len);
+        sm2x::rng_prepare(&[]);
+        call(ctx, "sm2.sign(boundary key)", &format!("regular-key:msg_len={}", len), &(len as u64).to_be_bytes(), || sk.sign(None, &m).is_ok());
+        if len > 0 {
+            for lay in LAYOUTS {
+                sm2x::rng_prepare(&[]);
+                call(ctx, "sm2.encrypt(boundary key)", &format!("regular-key:msg_len={}:{}", len, layout_name(lay.0, lay.1)), &(len as u64).to_be_bytes(), || lpk.encrypt(&m, lay.1, model(lay.0)).is_ok());
+            }
+            sm2x::rng_prepare(&[]);
+            call(ctx, "sm2.encrypt(boundary key)", &format!("regular-key:asn1:msg_len={}", len), &(len as u64).to_be_bytes(), || lpk.encrypt_asn1(&m, false, model(Order::C1C3C2)).is_ok());
+        }
+    }
     // ------------------------------------------------------------------ SM4
     length_sweep(ctx, &mut p, &mut idx, "sm4.Sm4Cipher::new", &[15, 16], &|b| Sm4Cipher::new(b).is_ok());
     let key16: [u8; 16] = p.arr();
@@ -373,6 +391,28 @@ pub fn run(ctx: &mut Ctx) {
         length_sweep(ctx, &mut p, &mut idx, &dentry, &[0, 15, 16, 17, 32], &|b| m.decrypt(b, &iv).is_ok());
         if mi == 0 || mi == 3 {
             length_sweep(ctx, &mut p, &mut idx, &format!("sm4.mode.encrypt:{}", mname), &[0, 15, 16], &|b| m.encrypt(b, &iv).is_ok());
+        }
+        // structured 16-byte IVs (counter wrap-around, all zero) with several data lengths
+        for ivs in [[0xffu8; 16], [0u8; 16], {
+            let mut v = [0xffu8; 16];
+            v[0] = 0x7f;
+            v
+        }, {
+            let mut v = [0xffu8; 16];
+            v[15] = 0xfd;
+            v
+        }] {
+            for dl in [0usize, 1, 15, 16, 17, 48, 100] {
+                idx += 1;
+                if !ctx.mine(idx) {
+                    continue;
+                }
+                let data = p.bytes(dl);
+                call(ctx, &dentry, &format!("iv_structured:data_len={}", dl), &ivs, || m.decrypt(&data, &ivs).is_ok());
+                if mi == 0 || mi == 3 {
+                    call(ctx, &format!("sm4.mode.encrypt:{}", mname), &format!("iv_structured:data_len={}", dl), &ivs, || m.encrypt(&data, &ivs).is_ok());
+                }
+            }
         }
         // IV of every length 0..=40 with data of several lengths
         for ivlen in 0..=40usize {
